@@ -506,6 +506,18 @@ theorem own_lambda {j k ja ka jl kl jb kb : Nat} {po ar va ko kw bd} (h1 : 1 ≤
     (hb : Win src σ jb kb bd) (b1 : k ≤ kb) (b2 : jb ≤ j) (b3 : 1 ≤ jb) (b4 : kb ≤ N) :
     Win src σ j k (.lambda (S σ j, E σ k) (S σ ja, E σ ka) po ar va ko kw bd) :=
   win_lambda T h1 (Nat.le_refl _) h3 (Nat.le_refl _) h5 a1 a2 a3 hs l0 hb b1 b2 b3 b4
+/-- a lambda without parameters: the `Arguments` node is the empty range at the end of the keyword token -/
+theorem own_lambda_empty {j k jb kb : Nat} {po ar va ko kw bd} (h1 : 1 ≤ k) (h3 : k ≤ j) (h5 : j ≤ N)
+    (h0 : argItems po ar va ko kw = []) (hb : Win src σ jb kb bd) (b1 : k ≤ kb) (b2 : jb ≤ j) (b3 : 1 ≤ jb)
+    (b4 : kb ≤ N) : Win src σ j k (.lambda (S σ j, E σ k) (E σ j, E σ j) po ar va ko kw bd) := by
+  obtain ⟨a, b, c⟩ := idx T (k' := k) (k := k) (j := j) (j' := j) h1 (Nat.le_refl _) h3 (Nat.le_refl _) h5
+  have hj := T.own j (by omega) h5
+  rw [show σ j = ((σ j).1, (σ j).2) from rfl, rgOk_iff] at hj
+  have ha : rgOk src (E σ j, E σ j) := by
+    rw [rgOk_iff]; exact ⟨Nat.le_refl _, hj.2.1, hj.2.2.2, hj.2.2.2⟩
+  have hs' : SeqG (RSI src) (E σ j) (E σ j) (argItems po ar va ko kw) := by rw [h0]; trivial
+  exact rs_lambda a b c ha hj.1 (T.EE h1 h3 h5) hs' (Nat.le_refl _) (Nat.le_refl _)
+    (Win.mono T hb b2 b1 b3 (by omega) (by omega) b4)
 theorem own_slice {j k : Nat} {x y z : Option RExpr} (h1 : 1 ≤ k) (h3 : k ≤ j) (h5 : j ≤ N)
     (hx : ∀ e, x = some e → Win src σ j k e) (hy : ∀ e, y = some e → Win src σ j k e)
     (hz : ∀ e, z = some e → Win src σ j k e) : Win src σ j k (.slice (S σ j, E σ k) x y z) :=
@@ -595,6 +607,8 @@ grind_pattern own_namedExpr => TiledTab src σ N, Win src σ j k v,
   RExpr.namedExpr (S σ j0, v.range.2) (RExpr.name (Sp σ j0) n) v
 grind_pattern own_lambda => TiledTab src σ N, Win src σ jb kb bd, SeqP src σ jl kl (argItems po ar va ko kw),
   RExpr.lambda (S σ j, E σ k) (S σ ja, E σ ka) po ar va ko kw bd
+grind_pattern own_lambda_empty => TiledTab src σ N, Win src σ jb kb bd,
+  RExpr.lambda (S σ j, E σ k) (E σ j, E σ j) po ar va ko kw bd
 grind_pattern own_slice => TiledTab src σ N, RExpr.slice (S σ j, E σ k) x y z
 grind_pattern own_boolOp => TiledTab src σ N, SeqI src σ jl kl es, RExpr.boolOp (S σ j, E σ k) op es
 grind_pattern own_set => TiledTab src σ N, SeqI src σ jl kl es, RExpr.set (S σ j, E σ k) es
